@@ -42,6 +42,8 @@ func cmdTry(args []string) int {
 		sets = append(sets, genRandomStreams(r, "random-streams", 3000, fullKnobs(), ""))
 	case "malformed":
 		sets = append(sets, genMalformed(r, 5000))
+	case "wire":
+		sets = append(sets, genWire(r, 3000))
 	case "ts":
 		sets = append(sets, genTimestamps(r, 2000))
 	case "comp":
